@@ -460,7 +460,9 @@ class DataDevice(Device):
                     error_code=Device.Error.BAD_ARG_TYPE,
                     error_msg='Cannot READ data as requested type',
                 )
-            if cell_type.is_integral:
+            if cell_type.is_integral and number_fits(value, cell_type):
+                # (a value that does not fit is left for the cell to
+                # reject as an overflow)
                 value = round(value)
         self.cpu.push(cell_type, value)
 
